@@ -105,12 +105,17 @@ func (pc *PubkeyCache) unsafeValidatorIndex(pubkey BLSPubkey) (index ValidatorIn
 // AddValidator appends the (index, pubkey) pair to the pubkey cache. It returns the same cache if the added entry is not conflicting.
 // If it conflicts, the part is inherited, and a forked pubkey cache is returned.
 func (pc *PubkeyCache) AddValidator(index ValidatorIndex, pub BLSPubkey) (*PubkeyCache, error) {
-	existingIndex, indexExists := pc.ValidatorIndex(pub)
-	existingPubkey, pubkeyExists := pc.Pubkey(index)
+	// The lookups and the append are one step under the write lock: callers adding at the same index concurrently
+	// must each see the other's entry (as a no-op or as a conflict), not decide on the state before either appended.
+	// The lock is released before forking out, the forked cache reads this one as its parent.
+	pc.rwLock.Lock()
+	existingIndex, indexExists := pc.unsafeValidatorIndex(pub)
+	existingPubkey, pubkeyExists := pc.unsafePubkey(index)
 
 	if indexExists {
 		if existingIndex != index {
 			// conflict detected! Deposit log fork!
+			pc.rwLock.Unlock()
 			forkedPc := &PubkeyCache{
 				parent: pc,
 				// fork out the existing index, only trust the history
@@ -118,12 +123,12 @@ func (pc *PubkeyCache) AddValidator(index ValidatorIndex, pub BLSPubkey) (*Pubke
 				pub2idx:            make(map[BLSPubkey]ValidatorIndex),
 				idx2pub:            make([]*CachedPubkey, 0),
 			}
-			// Do not have to unlock this cache (parent of forkedPc) early, as the forkedPc is guaranteed to handle it.
 			return forkedPc.AddValidator(index, pub)
 		}
 		if pubkeyExists {
 			if existingPubkey.Compressed != pub {
 				// conflict detected! Deposit log fork!
+				pc.rwLock.Unlock()
 				forkedPc := &PubkeyCache{
 					parent: pc,
 					// fork out the existing index, only trust the history
@@ -131,16 +136,17 @@ func (pc *PubkeyCache) AddValidator(index ValidatorIndex, pub BLSPubkey) (*Pubke
 					pub2idx:            make(map[BLSPubkey]ValidatorIndex),
 					idx2pub:            make([]*CachedPubkey, 0),
 				}
-				// Do not have to unlock this cache (parent of forkedPc) early, as the forkedPc is guaranteed to handle it.
 				return forkedPc.AddValidator(index, pub)
 			}
 		}
 		// append is no-op, validator already exists
+		pc.rwLock.Unlock()
 		return pc, nil
 	}
 	if pubkeyExists {
 		if existingPubkey.Compressed != pub {
 			// conflict detected! Deposit log fork!
+			pc.rwLock.Unlock()
 			forkedPc := &PubkeyCache{
 				parent: pc,
 				// fork out the existing index, only trust the history
@@ -148,11 +154,9 @@ func (pc *PubkeyCache) AddValidator(index ValidatorIndex, pub BLSPubkey) (*Pubke
 				pub2idx:            make(map[BLSPubkey]ValidatorIndex),
 				idx2pub:            make([]*CachedPubkey, 0),
 			}
-			// Do not have to unlock this cache (parent of forkedPc) early, as the forkedPc is guaranteed to handle it.
 			return forkedPc.AddValidator(index, pub)
 		}
 	}
-	pc.rwLock.Lock()
 	defer pc.rwLock.Unlock()
 	if expected := pc.trustedParentCount + ValidatorIndex(len(pc.idx2pub)); index != expected {
 		// index is unknown, but too far ahead of cache; in between indices are missing.
